@@ -159,7 +159,7 @@ type UnitResult struct {
 
 func (e *Engine) NewUnit(fn *ssa.Function, fs *FuncSpec) *Unit {
 	u := &Unit{eng: e, pkg: e.pkg, fn: fn, fs: fs, decls: NewDecls(), loops: map[*ssa.BasicBlock]*Loop{}, heapSorts: map[string]Sort{},
-		assumed: map[string]bool{}, callOrd: map[string]int{}, pdoms: map[*ssa.Function]map[*ssa.BasicBlock]*ssa.BasicBlock{}, lastArgTypes: map[string][]types.Type{}, sliceArr: map[string]string{}, arrayOfCache: map[string]T{}, noMerge: os.Getenv("EBU_NOMERGE") != ""}
+		assumed: map[string]bool{}, callOrd: map[string]int{}, pdoms: map[*ssa.Function]map[*ssa.BasicBlock]*ssa.BasicBlock{}, lastArgTypes: map[string][]types.Type{}, sliceArr: map[string]string{}, arrayOfCache: map[string]T{}, defOf: map[string]string{}, noMerge: os.Getenv("EBU_NOMERGE") != ""}
 	if fs != nil {
 		u.props = fs.Props
 	}
@@ -225,6 +225,26 @@ func (e *Engine) VerifyFunc(name string) (*UnitResult, error) {
 				continue
 			}
 		}
+		if sv, ok := u.exclusiveExpr(env, c); ok {
+			if pt, isP := sv.Typ.Underlying().(*types.Pointer); isP {
+				ref := u.lower(st, sv.V, sv.Typ)
+				kind := "deref:" + string(u.sortOf(pt.Elem()))
+				if _, isStruct := pt.Elem().Underlying().(*types.Struct); isStruct && !isOpaqueStruct(pt.Elem()) {
+					kind = "obj:" + structName(pt.Elem())
+				}
+				st.assume(Neq(ref, IntLit(0)))
+				for _, p := range st.private {
+					st.assume(Neq(ref, p.ref))
+				}
+				st.private = append(st.private, privRef{ref, kind})
+				// make sure the heap exists so that frames apply to it
+				if strings.HasPrefix(kind, "deref:") {
+					hn, hs := derefHeapName(u.sortOf(pt.Elem()))
+					u.heapGet(st.view(), hn, hs)
+				}
+			}
+			continue
+		}
 		if name, base, mode, ok := u.lockedExpr(env, c); ok {
 			// the caller holds the lock: its invariant holds and is the
 			// acquisition state for acq()
@@ -276,6 +296,9 @@ func (s *State) pcAtEntry(n int) []T {
 
 func (u *Unit) declareSpecPrelude() {
 	u.declCtx()
+	if _, ok := u.eng.spec.Ghosts["dec"]; ok {
+		u.declDec()
+	}
 	db := u.eng.spec
 	for _, n := range sortedKeys(db.Ghosts) {
 		g := db.Ghosts[n]
